@@ -380,16 +380,18 @@ class TOFUDatabase:
         if not isinstance(data["hosts"], dict):
             raise ValueError("Invalid TOML: 'hosts' must be a table")
 
-        # Clear database if not merging
-        if not merge:
-            self.clear()
-
         added_count = 0
         updated_count = 0
         skipped_count = 0
 
         with self._connection() as conn:
             cursor = conn.cursor()
+
+            # Clear database if not merging. This happens inside the import's
+            # own transaction: if any entry turns out to be invalid, nothing is
+            # committed and the store is left exactly as it was
+            if not merge:
+                cursor.execute("DELETE FROM known_hosts")
 
             for key, host_data in data["hosts"].items():
                 # Validate required fields
@@ -424,8 +426,15 @@ class TOFUDatabase:
                         f"has invalid fingerprint format: {fingerprint}"
                     )
 
-                # Check if host already exists
-                existing = self.get_host_info(hostname, port)
+                # Check if host already exists (through this transaction's own
+                # cursor, so that rows added or removed by this import are seen)
+                cursor.execute(
+                    "SELECT fingerprint FROM known_hosts "
+                    "WHERE hostname = ? AND port = ?",
+                    (hostname, port),
+                )
+                row = cursor.fetchone()
+                existing = dict(row) if row is not None else None
 
                 if existing is None:
                     # New host - add it
